@@ -266,6 +266,8 @@ RunTags(lines) == FeedTags(Init0("tags"), lines, 1)
 
 \* ---------------------------------------------------------------- whole runs
 Run(entry, lines) == IF entry = "tags" THEN RunTags(lines) ELSE AtEof(FeedAll(InitOf(entry), lines, 1))
+\* the state after a prefix (no end-of-text handling)
+Prefix(entry, lines) == IF entry = "tags" THEN RunTags(lines) ELSE FeedAll(InitOf(entry), lines, 1)
 Outcome(ps) == IF ps.res.k = "live" THEN [k |-> "accept", n |-> 0, why |-> "", site |-> ""]
                ELSE [k |-> IF ps.res.k = "err" THEN "error" ELSE "crash", n |-> ps.res.n, why |-> ps.res.why, site |-> ps.res.site]
 \* what the entry point returns (indices into elems): feature -> the feature; rule/scenario -> self.statement;
